@@ -18,14 +18,19 @@ RowTxt(b, r) == b[SqOf(r, 0)] \o b[SqOf(r, 1)] \o b[SqOf(r, 2)] \o b[SqOf(r, 3)]
 DiagramRows(b) == [i \in 1..8 |-> << RankCh[9 - i], RowTxt(b, 8 - i) >>]
 FileLabels == "abcdefgh"
 
+\* The tokens that name a move in the record: piece letter (none for a pawn), origin file, capture mark, destination,
+\* promotion piece.  What the property does not speak about is left open: a castling move may be written O-O / O-O-O or
+\* as the king's move, and a check (+) or mate (#) mark may follow.
 RecTokens(pos, m) ==
   LET p == pos.board[m.from]
       kind == KindOf(p)
       of == FileCh[Col(m.from) + 1]
       x == IF IsCapture(pos, m) THEN "x" ELSE ""
       dest == SqTxt(m.to)
-  IN CASE m.kind = "OO" -> {"O-O"}
-       [] m.kind = "OOO" -> {"O-O-O"}
-       [] m.promo # "" -> { x \o dest \o "=" \o m.promo, of \o x \o dest \o "=" \o m.promo }
-       [] OTHER -> { (IF kind = "P" THEN "" ELSE kind) \o of \o x \o dest }
+      plain == (IF kind = "P" THEN "" ELSE kind) \o of \o x \o dest
+      core == CASE m.kind = "OO" -> {"O-O", plain}
+                [] m.kind = "OOO" -> {"O-O-O", plain}
+                [] m.promo # "" -> { x \o dest \o "=" \o m.promo, of \o x \o dest \o "=" \o m.promo }
+                [] OTHER -> { plain }
+  IN UNION { {t, t \o "+", t \o "#"} : t \in core }
 =============================================================================
